@@ -98,7 +98,7 @@ Export ==
 
 ChooseDispatch ==
   /\ pc = "loaded" /\ ~refused /\ "dispatch" \in Jobs
-  /\ \E t \in tree, c \in ArgvClasses \ {"unknown_mid"} :
+  /\ \E t \in tree, c \in ArgvClasses :
        /\ (c = "unknown_group" => Len(t.path) > 1)
        /\ job' = "dispatch" /\ cls' = c /\ node' = <<>> /\ rest' = Tokens(c, t.path) /\ given' = GivenOf(c)
        /\ q' = t.path
